@@ -39,7 +39,7 @@ struct Found {
 
 fn networks(tier: &str) -> Vec<Inst> {
     let mut out = vec![];
-    let mut push = |shunts: &[u8], forbids: &[u8], dhs: &[u8], maints: &[u8], sizes: std::ops::RangeInclusive<usize>| {
+    let mut push = |shunts: &[u8], forbids: &[u8], dhs: &[u8], maints: &[u8], twoseg: u8, sizes: std::ops::RangeInclusive<usize>| {
         for &shunt in shunts {
             for &forbid in forbids {
                 for &dh in dhs {
@@ -49,6 +49,7 @@ fn networks(tier: &str) -> Vec<Inst> {
                         cfg[D_FORBID] = forbid;
                         cfg[D_DH] = dh;
                         cfg[D_MAINT] = maint;
+                        cfg[D_TWOSEG] = twoseg;
                         // demand is irrelevant for tours: one demand level
                         let cat: Vec<Trip> = catalogue(&cfg).into_iter().filter(|t| t.dem == 1).collect();
                         for trips in trip_multisets(&cat, *sizes.end()) {
@@ -62,11 +63,17 @@ fn networks(tier: &str) -> Vec<Inst> {
         }
     };
     if tier == "thorough" {
-        push(&[0, 1, 3, 4], &[0, 1], &[0, 1, 2, 3, 4], &[0, 1, 4], 1..=4);
+        push(&[0, 1, 3, 4], &[0, 1], &[0, 1, 2, 3, 4], &[0, 1, 4], 0, 1..=4);
+        // two locations that are the same place (0 s, 0 m apart) with and without dead-head shunting
+        push(&[0, 2, 3], &[0, 1], &[5], &[0, 1, 4], 0, 1..=4);
+        // two-segment trips (two nodes per direction-0 trip, back to back)
+        push(&[0, 1, 2], &[0, 1], &[0, 2, 5], &[0, 4], 1, 1..=3);
     } else {
-        push(&[0, 1, 3], &[0, 1], &[0, 1, 2, 3], &[0, 1, 4], 1..=2);
+        push(&[0, 1, 3], &[0, 1], &[0, 1, 2, 3], &[0, 1, 4], 0, 1..=2);
         // three trips (three-node dummy tours, non-transitive chains) on a reduced configuration grid
-        push(&[0, 3], &[0, 1], &[0, 2, 3], &[0, 4], 3..=3);
+        push(&[0, 3], &[0, 1], &[0, 2, 3], &[0, 4], 0, 3..=3);
+        push(&[0, 2], &[0, 1], &[5], &[0, 4], 0, 1..=3);
+        push(&[0, 1], &[0, 1], &[0, 5], &[0, 4], 1, 1..=2);
     }
     out
 }
